@@ -18,7 +18,17 @@ type tree18 struct {
 	Scope  string            `json:"scope"`
 	NewDir string            `json:"newdir"`
 	Tags   []string          `json:"tags"` // what the generator injected (distribution only)
+	// ExpectOk: the tree is valid by construction (every reference local, inside the scope, outside
+	// newDir; valid arguments): the fault-free localize must succeed.
+	ExpectOk bool `json:"expect_ok,omitempty"`
 }
+
+var invalidTags18 = map[string]bool{"missing-file": true, "file-outside-root": true, "root-outside-scope": true, "cycle": true,
+	"file-into-newdir": true, "root-into-newdir": true, "root-into-missing-newdir": true, "absolute-root": true,
+	"bad-file-source": true, "unparsable-kustomization": true, "dir-as-file": true, "multiple-kustomization-files": true,
+	"no-kustomization-file": true, "newdir-exists": true, "newdir-illegal": true, "target-missing": true,
+	"target-is-file": true, "scope-not-containing-target": true, "scope-missing": true, "helm:absolute-home": true,
+	"helm:home-outside-scope": true, "scope-excludes-sibling-root": true}
 
 func (t *tree18) tag(s string) { t.Tags = append(t.Tags, s) }
 
@@ -295,6 +305,28 @@ func (r *root18) fill(rootRefs map[string][]string) {
 					"source:\n  kind: Deployment\n  name: "+r.depName()+"\n  fieldPath: metadata.name\ntargets:\n- select:\n    kind: Deployment\n    name: "+r.depName()+"\n  fieldPaths:\n  - spec.template.metadata.labels.app\n")
 				body = "apiVersion: builtin\nkind: ReplacementTransformer\nmetadata:\n  name: " + r.tagN + fmt.Sprintf("-rt%d", i) + "\nreplacements:\n- path: " + c18yq(r.spell(p)) + "\n"
 			}
+			if rng.Chance(35) {
+				// a multi-document plugin entry of mixed kinds: a stage that installs another localizing
+				// function (PatchStrategicMerge paths) BEFORE a plugin whose plain path field names a file
+				// that is not itself a k8s resource
+				p1 := r.add(r.fname("mpsm", ".yaml"), smpDoc(r.depName(), 11))
+				first := "apiVersion: builtin\nkind: PatchStrategicMergeTransformer\nmetadata:\n  name: " + r.tagN + fmt.Sprintf("-mpsm%d", i) + "\npaths:\n- " + c18yq(r.spell(p1)) + "\n"
+				var second string
+				switch rng.Intn(3) {
+				case 0:
+					p2 := r.add(r.fname("mj", ".yaml"), json6902Doc)
+					second = "apiVersion: builtin\nkind: PatchJson6902Transformer\nmetadata:\n  name: " + r.tagN + fmt.Sprintf("-mpj%d", i) + "\ntarget:\n  group: apps\n  version: v1\n  kind: Deployment\n  name: " + r.depName() + "\npath: " + c18yq(r.spell(p2)) + "\n"
+				case 1:
+					p2 := r.add(r.fname("mrepl", ".yaml"),
+						"source:\n  kind: Deployment\n  name: "+r.depName()+"\n  fieldPath: metadata.name\ntargets:\n- select:\n    kind: Deployment\n    name: "+r.depName()+"\n  fieldPaths:\n  - spec.template.metadata.labels.app\n")
+					second = "apiVersion: builtin\nkind: ReplacementTransformer\nmetadata:\n  name: " + r.tagN + fmt.Sprintf("-mrt%d", i) + "\nreplacements:\n- path: " + c18yq(r.spell(p2)) + "\n"
+				default:
+					p2 := r.add(r.fname("mjp", ".yaml"), json6902Doc)
+					second = "apiVersion: builtin\nkind: PatchTransformer\nmetadata:\n  name: " + r.tagN + fmt.Sprintf("-mpt%d", i) + "\ntarget:\n  kind: Deployment\n  name: " + r.depName() + "\npath: " + c18yq(r.spell(p2)) + "\n"
+				}
+				body = first + "---\n" + second
+				r.t.tag("plugin:multi-document-mixed-kinds")
+			}
 			f := r.add(r.fname("tr", ".yaml"), body)
 			items = append(items, r.spell(f))
 		}
@@ -412,6 +444,11 @@ func (r *root18) fillHelm() {
 		}
 		if entry != "" {
 			body += "chartHome: " + yq(entry) + "\n"
+		}
+		if rng.Chance(50) {
+			e := r.add(r.fname("hg", ".env"), "HG="+r.tagN+"\n")
+			body += "---\napiVersion: builtin\nkind: ConfigMapGenerator\nmetadata:\n  name: " + r.tagN + "-afterhelm\nenvs:\n- " + c18yq(r.spell(e)) + "\n"
+			t.tag("plugin:multi-document-mixed-kinds")
 		}
 		f := r.add(r.fname("helmgen", ".yaml"), body)
 		r.fields["generators"] = append(r.fields["generators"], r.spell(f))
@@ -737,8 +774,12 @@ func genTree18(rng *Rng) *tree18 {
 			allUnderTarget = false
 		}
 	}
-	if !allUnderTarget && scopeRoll >= 55 && scopeRoll < 94 && !(adv && rng.Chance(30)) {
-		scopeRoll = 0 // a default / target scope would put sibling roots outside the scope
+	if !allUnderTarget && scopeRoll >= 55 && scopeRoll < 94 {
+		if adv && rng.Chance(30) {
+			t.tag("scope-excludes-sibling-root")
+		} else {
+			scopeRoll = 0 // a default / target scope would put sibling roots outside the scope
+		}
 	}
 	switch x := scopeRoll; {
 	case x < 55:
@@ -764,6 +805,12 @@ func genTree18(rng *Rng) *tree18 {
 	}
 	t.NewDir = newDir
 	sort.Strings(t.Dirs)
+	t.ExpectOk = true
+	for _, tg := range t.Tags {
+		if invalidTags18[tg] {
+			t.ExpectOk = false
+		}
+	}
 	return t
 }
 
